@@ -1,4 +1,4 @@
 SPECIFICATION Spec
-CONSTANTS MaxChunks = 3 Variant = "no_need_props"
+CONSTANTS MaxChunks = 4 Variant = "no_need_props"
 INVARIANTS AcceptIffValid MeaningExact PrefixOnError FunctionalAgrees
 CHECK_DEADLOCK FALSE
